@@ -7,16 +7,16 @@ claim("C08", "who-may-construct over the whole type-checked program for the blin
 claim("C09", "Commitment constructor and opening verifier equal the Pedersen map / single-equation relation as normal-form identities for symbolic group and length.",
       "Decides: Commitment::new == bf*h + <gs,m>; verify_opening == (R_commit == self); parameter wiring. Not decided: binding/hiding.",
       "MIR value reconstruction + linear-form normal-form identity", "5/C09")
-claim("C11", "Acceptance Booleans of the three proof verifiers equal R_cp / R_srp / R_sp exactly (both directions) for symbolic G and N.",
+claim("C11", "Acceptance Booleans of the three proof verifiers equal R_cp / R_srp / R_sp exactly (both directions) for symbolic G and N; every element reaching them from the wire passed the checked (on-curve, in-subgroup) decoder.",
       "Decides: conjunct-for-conjunct identity with the reference relations over role-bound atoms; payload provenance. Not decided: special soundness (paper argument over the relation shown).",
       "MIR value reconstruction + BDD over normalised equality/pairing atoms compared with oracle", "5/C11")
 claim("C12", "Reconstructed Fiat-Shamir transcripts: every non-response atom of every proof type (enumerated from the wire form) and every field of every ChallengeInput type reaches the hash; builder/proof and prover/verifier transcripts are identical terms; sink integrity.",
       "Decides: coverage and agreement of transcripts for all 21 ChallengeInput impls, 4 builder/proof pairs, 2 zkAbacus proofs. Not decided: collision resistance of SHA3.",
       "hasher-term reconstruction with loop summaries + type-directed atom enumeration (must-reach-sink)", "5/C12")
-claim("C01", "Exactness of EstablishProof::verify against R_est, Fiat-Shamir coverage of every non-response wire atom, statement binding, payload/initialize provenance, who-may-construct/sign facts.",
+claim("C01", "Exactness of EstablishProof::verify against R_est, Fiat-Shamir coverage of every non-response wire atom, statement binding, payload/initialize provenance, who-may-construct/sign facts; shared necessary conditions: wire elements pass the checked (in-subgroup) decoder, balance and channel-id encodings are exact and injective.",
       "Decides: acceptance == R_est (conjunct-for-conjunct), every first-message atom hashed, initialize signs exactly the verified close-state commitment. Not decided: soundness of the Schnorr/ROM argument for R_est (paper argument over the relation shown).",
       "MIR value reconstruction + BDD/polynomial normal-form identity against an oracle relation; must-reach-sink transcript rule; who-may-construct", "5/C01")
-claim("C02", "Exactness of PayProof::verify against R_pay (incl. both range constraints and the signed balance update), transcript coverage, payload and allow_payment wiring.",
+claim("C02", "Exactness of PayProof::verify against R_pay (incl. both range constraints and the signed balance update), transcript coverage, payload and allow_payment wiring; shared necessary conditions: wire elements pass the checked (in-subgroup) decoder, balance / amount / channel-id encodings are exact.",
       "Decides: acceptance == R_pay with equality chains compared by row space; range constraints linked to the new balances; returned commitment is the old-lock proof's. Not decided: cryptographic soundness, token unforgeability.",
       "MIR value reconstruction with loop-recurrence summaries + normal-form identity against an oracle relation", "5/C02")
 claim("C03", "Typestate by value reconstruction of all customer transitions: verify-then-transition against R_ps on the stage's own message, inert refusal, inductive (signature,state) pairing invariant at every construction site, revocation release discipline.",
@@ -31,7 +31,7 @@ claim("C13", "Range prover domain/no-panic by intervals for all i64, verifier ex
 claim("C17", "Totality of balance/amount arithmetic by interval + octagon abstract interpretation for all 64-bit inputs, exact Ok/Err regions decided in the octagon domain, exact linear value forms, invariant establishment at every construction site (decoders included), and a sweep of every public / trait method of the four arithmetic types for undischarged panic obligations.",
       "Decides: no reachable overflow/abs/cast/unwrap panic; Ok exactly on [0,2^63-1] with the exact result; encoding is the ring map. Uses the Balance invariant only because every construction site is shown to establish it.",
       "interval + octagon abstract interpretation over reconstructed MIR terms; who-may-construct invariant establishment", "5/C17")
-claim("C04", "Completeness identities for establish and pay (verifier acceptance of the honest provers' output terms normalises to TRUE under a library-generated merchant configuration), exact ledger step, clean refusal, and discharge of every input-dependent panic obligation on the honest prover path.",
+claim("C04", "Completeness identities for establish and pay (verifier acceptance of the honest provers' output terms normalises to TRUE under a library-generated merchant configuration), exact ledger step, clean refusal, discharge of every input-dependent panic obligation on the honest prover path, and expressibility of the whole documented range (balance / amount constructors accept exactly 0..=2^63-1; encodings exact).",
       "Decides per-step facts for all inputs; histories follow by induction. Pay completeness uses the ledger hypothesis established by rule `ledger` + C17 and the digit-decomposition lemma (recorded). Not decided: RNG liveness.",
       "MIR value reconstruction + normal-form identities (completeness), interval/octagon discharge of panic obligations", "5/C04")
 claim("C06", "Every component of both verification tuples reaches the Fiat-Shamir hash or an atom of the exact acceptance relation; Context hashes its whole input; the close check covers every close-state field; ChannelId::to_scalar is the full-width byte-linear embedding of the 32-byte id.",
